@@ -173,6 +173,7 @@ func expiry(expired bool) time.Time {
 }
 
 func (k *Case) runHandler() (out string) {
+	k.prepareReal()
 	acme.StrictFQDN = k.Strict
 	acme.InsecurePortHTTP01 = k.PortH
 	acme.InsecurePortTLSALPN01 = k.PortT
